@@ -150,36 +150,37 @@ func wildcardChars(c *Ctx, rule, fnName string) {
 	if c.P.GOOS != "windows" {
 		// ... by an extra step of the index that is taken only for a backslash
 		x := c.explorer(fn)
-		var esc []string
-		eng.InstrsShallow(fn, func(in ssa.Instruction) {
-			if bo, ok := in.(*ssa.BinOp); ok && bo.Op == token.EQL {
-				if k, isK := eng.ConstInt(bo.Y); isK && k == '\\' {
-					esc = append(esc, x.KeyAtEntry(bo))
+		// the tests "this character is a backslash", in either spelling
+		escPins := func(isBackslash bool) map[string]bool {
+			out := map[string]bool{}
+			eng.InstrsShallow(fn, func(in ssa.Instruction) {
+				bo, ok := in.(*ssa.BinOp)
+				if !ok || (bo.Op != token.EQL && bo.Op != token.NEQ) {
+					return
 				}
-			}
-		})
+				for _, y := range []ssa.Value{bo.X, bo.Y} {
+					if k, isK := eng.ConstInt(y); isK && k == '\\' {
+						out[x.RegKey(bo)] = (bo.Op == token.EQL) == isBackslash
+					}
+				}
+			})
+			return out
+		}
+		no, yes := escPins(false), escPins(true)
 		skips := false
 		eng.InstrsShallow(fn, func(in ssa.Instruction) {
 			bo, ok := in.(*ssa.BinOp)
-			if !ok || bo.Op != token.ADD || len(esc) == 0 {
+			if !ok || bo.Op != token.ADD || len(no) == 0 {
 				return
 			}
 			if k, isK := eng.ConstInt(bo.Y); !isK || k < 1 {
 				return
-			}
-			no := map[string]bool{}
-			for _, k := range esc {
-				no[k] = false
 			}
 			isIt := func(i2 ssa.Instruction) bool { return i2 == ssa.Instruction(bo) }
 			if hit, und := c.ReachableUnder(fn, no, nil, isIt); hit == nil && !und {
 				// ... and is taken for a backslash (on this platform the
 				// escape is live: a platform test with the wrong polarity
 				// makes the step dead code)
-				yes := map[string]bool{}
-				for _, k := range esc {
-					yes[k] = true
-				}
 				if hit2, und2 := c.ReachableUnder(fn, yes, nil, isIt); hit2 != nil || und2 {
 					skips = true
 				}
